@@ -20,6 +20,24 @@ from typing import TypeVar
 T = TypeVar("T")
 
 
+def stable_repr(item: object) -> str:
+    """Text form of an item that does not depend on ``PYTHONHASHSEED``.
+
+    Equal to ``repr(item)`` except that sets and frozensets (also nested in
+    tuples) are rendered with their elements in sorted order: their iteration
+    order follows the per-process string hashes, so ``repr()`` of the same set
+    differs between interpreters (and can differ between two equal sets).
+    Sketches hash this text, which keeps their answers reproducible.
+    """
+    if isinstance(item, (set, frozenset)) and item:
+        inner = ", ".join(sorted(stable_repr(x) for x in item))
+        return f"{type(item).__name__}({{{inner}}})"
+    if type(item) is tuple:
+        inner = ", ".join(stable_repr(x) for x in item)
+        return f"({inner},)" if len(item) == 1 else f"({inner})"
+    return repr(item)
+
+
 class Sketch(ABC):
     """Base protocol for all streaming/sketching algorithms.
 
